@@ -66,6 +66,10 @@ CORPUS = [
     {"kind": "template", "source": "a{% if x == 'a %}b", "trigger": T_CLASS},
     {"kind": "template", "source": "{% component \"test\" value='it's' / %}", "trigger": T_CLASS},
     {"kind": "template", "source": "{% component 'x' a=[1 / %}", "trigger": T_CLASS},
+    # seeded change C12f (regex with a nested quantifier in ComponentFormatter.parse): long bare word as the first argument
+    {"kind": "time", "target": "template", "text": "{% component " + "a" * 48 + " %}", "trigger": T_HANG},
+    {"kind": "time", "target": "template", "text": "{% component " + "ab.cd:e-f_" * 6 + "|x=1 / %}", "trigger": T_HANG},
+    {"kind": "time", "target": "template", "text": "{% xs " + "a" * 60 + " / %}", "trigger": T_HANG},
     # shapes that once looked suspicious while porting (all fine): empty quote char after `_(`, `=` first, ...
     {"kind": "parse_serialize", "text": "_(", "trigger": T_CLASS},
     {"kind": "parse_serialize", "text": "a|_(", "trigger": T_CLASS},
@@ -228,18 +232,11 @@ def roundtrip_class(r):
     return "special-char-in-token" if U.has_special_in_token(r["attrs"]) else "other"
 
 
-_engines = {}
-BUILTINS = ["django_components.templatetags.component_tags"]
-
-
 def engines():
     """explicit engines for both settings of `debug` (the debug branch of the patched Template.compile_nodelist reads e.token /
-    builds template_debug - a different code path for every error)"""
-    from django.template import Engine
-    if not _engines:
-        for dbg in (True, False):
-            _engines[dbg] = Engine(debug=dbg, builtins=BUILTINS)
-    return _engines
+    builds template_debug - a different code path for every error); builtins: the component tags (default TagFormatter,
+    `{% component 'x' %}`) and a second registry with the shorthand TagFormatter (`{% xs %}`)"""
+    return T.make_engines()
 
 
 def template_class(source):
@@ -391,6 +388,14 @@ def hang_sweep(chk, thorough):
                 cases.append({"target": "parse_template", "text": TAG_SHAPES[1] % s, "family": name, "k": k})
                 cases.append({"target": "detailed", "text": "{% a " + s, "family": name, "k": k})
                 cases.append({"target": "detailed", "text": "{% a " + s + " %} tail", "family": name, "k": k})
+            # the same text as the FIRST argument of a component tag (TagFormatter.parse sees it before parse_tag), default / shorthand
+            for sh in (T.FIRST_SHAPES if thorough else [T.FIRST_SHAPES[(k + len(name)) % 2], T.FIRST_SHAPES[2 + (k + len(name)) % 2]]):
+                cases.append({"target": "template", "text": sh % s, "family": "first:" + name, "k": k})
+        for name, fam in T.FAMILIES_FIRSTARG.items():
+            s = fam(k)
+            for sh in T.FIRST_SHAPES:
+                cases.append({"target": "template", "text": sh % s, "family": "firstarg-" + name, "k": k})
+            cases.append({"target": "parse_tag", "text": s, "family": "firstarg-" + name, "k": k})
         for name, fam in T.FAMILIES_TPL.items():
             s = fam(k)
             cases.append({"target": "template", "text": s, "family": name, "k": k})
@@ -404,6 +409,7 @@ def hang_sweep(chk, thorough):
         s = pre + piece * k + suf
         cases.append({"target": "parse_tag", "text": s, "family": "pumped", "k": k})
         cases.append({"target": "template", "text": rng.choice(TAG_SHAPES) % s, "family": "pumped", "k": k})
+        cases.append({"target": "template", "text": rng.choice(T.FIRST_SHAPES) % s, "family": "pumped-first", "k": k})
         pre = "".join(rng.choice(PUMP_TPL) for _ in range(rng.randint(0, 3)))
         piece = "".join(rng.choice(PUMP_TPL + PUMP_ATOMS[:8]) for _ in range(rng.randint(1, 3)))
         suf = "".join(rng.choice(PUMP_TPL) for _ in range(rng.randint(0, 3)))
@@ -470,6 +476,10 @@ def scaling(chk, thorough):
         pairs.append((name, "parse_tag", fam))
         if thorough or i % 3 == chk.seed % 3 or "unterm-dq" in name:
             pairs.append((name, "template", lambda n, fam=fam: "{% component 'x' " + fam(n) + " / %}"))
+    for i, (name, fam) in enumerate(T.FAMILIES_FIRSTARG.items()):
+        pairs.append(("firstarg-" + name, "template", lambda n, fam=fam: T.FIRST_SHAPES[0] % fam(n)))
+        if thorough or i % 2 == chk.seed % 2:
+            pairs.append(("firstarg-" + name + "-shorthand", "template", lambda n, fam=fam: T.FIRST_SHAPES[2] % fam(n)))
     for name, fam in T.FAMILIES_TPL.items():
         pairs.append((name, "parse_template", fam))
         pairs.append((name, "template", fam))
@@ -621,7 +631,10 @@ def load_corpus():
 
 def template_sources(rng, s):
     yield "{% component 'x' " + s + " / %}"
-    k = rng.randrange(5)
+    k = rng.randrange(8)
+    if k >= 5:
+        yield T.FIRST_SHAPES[rng.randrange(4)] % s          # the body as FIRST argument: TagFormatter.parse of the default / shorthand formatter
+        return
     if k == 0:
         yield "{% component 'x' " + s + " %}body{% endcomponent %}"
     elif k == 1:
@@ -694,7 +707,7 @@ def run(tier, seed):
                 kinds.append(kind)
         for t in U.exhaustive(4 if thorough else 3):
             add(t, "exh")
-        n_rand = 60000 if thorough else 3000
+        n_rand = 60000 if thorough else 2000
         for _ in range(n_rand):
             add(U.random_string(rng, 5, U.ATOMS), "rand-short")
             add(U.random_string(rng, 14), "rand")
@@ -746,7 +759,7 @@ def run(tier, seed):
                 if (cls == "documented" or not rt or kind == "grammar") and len(rt_terms) < rt_cap and U.bracket_depth(t) <= 60:
                     rt_terms.append("(%s, %s)" % (cstr(t), C.cbool(rt)))
                     rt_cases.append(t)
-                if len(ser_texts) < (20000 if thorough else 1000) and r["ser"] not in seen:
+                if len(ser_texts) < (20000 if thorough else 700) and r["ser"] not in seen:
                     seen.add(r["ser"])
                     ser_texts.append(r["ser"])
             try:
@@ -876,6 +889,49 @@ def run(tier, seed):
                          {"kind": "template", "source": tt_cases[i]})
         phase("template-coq")
 
+        # ---- 2b. TagFormatter.parse (default and shorthand formatter) on the bits of component tags: model == implementation ----
+        from django.template.base import Token, TokenType
+        from django.utils.text import smart_split
+        from django_components.tag_formatter import component_formatter, component_shorthand_formatter
+        fatoms = ["'x'", '"x"', "name='x'", 'name="y"', "name=", "name=z", "a=1", '"a=b"', "'=", "x", "=", "''", "'", "a='", "name='x", "k:v=2", "aaaaaaaaaaaa"]
+        bitlists = set()
+        for L in range(0, 4 if thorough else 3):
+            for seq in itertools.product(fatoms, repeat=L):
+                bitlists.add(tuple(seq))
+        for seq in itertools.product(fatoms[:9], repeat=3):
+            bitlists.add(tuple(seq))
+        for t in pool[: (20000 if thorough else 1500)]:
+            try:
+                bitlists.add(tuple(smart_split(t))[:8])
+            except Exception:  # noqa
+                pass
+        for name, fam in T.FAMILIES_FIRSTARG.items():
+            for k in (1, 4, 9):
+                bitlists.add(tuple(smart_split(fam(k))))
+        ft_terms, ft_cases = [], []
+        for bits in sorted(bitlists):
+            for shorthand, fmt, tagname in ((False, component_formatter, "component"), (True, component_shorthand_formatter, "xs")):
+                tokens = [tagname, *bits]
+                try:
+                    with deadline():
+                        res = fmt.parse(list(tokens))
+                    term = "FOk %s %s" % (cstr(res.component_name), clist([cstr(x) for x in res.tokens]))
+                    cls = "ok"
+                except BaseException as e:  # noqa
+                    cls = exc_name(e)
+                    term = "FErr %s" % U.errkind(cls)
+                chk.count(("formatter", shorthand, bits), any("=" in b or "'" in b or '"' in b for b in bits), kind="formatter-" + ("ok" if cls == "ok" else "err"))
+                if cls not in ("ok", "TemplateSyntaxError"):
+                    chk.fail(classify_trigger(" ".join(tokens), cls), "%s.parse(%r) raised %s" % (type(fmt).__name__, tokens, cls),
+                             {"kind": "formatter", "shorthand": shorthand, "tokens": tokens, "exception": cls})
+                ft_terms.append("(%s, %s, %s)" % (C.cbool(shorthand), clist([cstr(x) for x in tokens]), term))
+                ft_cases.append((shorthand, tokens))
+        bad = C.coq_eval_cases("C12", "fmt", IMPORTS_X, "bool * list str * fobs", "check_formatter", ft_terms, shard=3000, timeout=1200)
+        for i in bad[:20]:
+            chk.disagree("TagFormatter.parse (component name, remaining bits / exception class): model != implementation",
+                         {"kind": "formatter", "shorthand": ft_cases[i][0], "tokens": ft_cases[i][1]})
+        phase("formatter")
+
         # ---- 3. _detailed_tag_parser: model == implementation ----
         datoms = ["'", '"', "%", "}", "\\", " ", "a", "\n", "{", "\xa0"]
         terms, cases = [], []
@@ -993,10 +1049,23 @@ def replay(path):
     elif kind == "time":
         print(T.run_cases([{"target": case["target"], "text": case["text"]}], limit=case.get("limit_s", WATCHDOG_S)))
     elif kind == "scaling":
-        fam = dict(T.FAMILIES_TAG, **T.FAMILIES_TPL)[case["family"]]
-        f = fam if case["target"] != "template" or case["family"] in T.FAMILIES_TPL else (lambda n: "{% component 'x' " + fam(n) + " / %}")
+        fname = case["family"]
+        if fname.startswith("firstarg-"):
+            base = T.FAMILIES_FIRSTARG[fname[len("firstarg-"):].replace("-shorthand", "")]
+            shape = T.FIRST_SHAPES[2 if fname.endswith("-shorthand") else 0]
+            fam = f = (lambda n: shape % base(n))
+        else:
+            fam = dict(T.FAMILIES_TAG, **T.FAMILIES_TPL)[fname]
+            f = fam if case["target"] != "template" or fname in T.FAMILIES_TPL else (lambda n: "{% component 'x' " + fam(n) + " / %}")
         cs = [{"target": case["target"], "text": _sized(f, n), "reps": 3} for n in case["sizes"][-3:]]
         print([(len(c["text"]), x["outcome"], x["secs"]) for c, x in zip(cs, T.run_cases(cs, limit=20.0))])
+    elif kind == "formatter":
+        from django_components.tag_formatter import component_formatter, component_shorthand_formatter
+        fmt = component_shorthand_formatter if case["shorthand"] else component_formatter
+        try:
+            print(fmt.parse(list(case["tokens"])))
+        except Exception as e:  # noqa
+            print(exc_name(e), e)
     elif kind == "detailed":
         print(impl_detailed(case["text"]))
     elif kind == "dynamic_time":
